@@ -232,6 +232,10 @@ func (d *SimDisk) toMirror(ctx context.Context, name string, b []byte) {
 }
 
 func (d *SimDisk) Load(ctx context.Context, name string) ([]byte, error) {
+	if err := ctx.Err(); err != nil {
+		// reads honour the caller's context (writes deliberately do not: see the C03 cancel flavour)
+		return nil, err
+	}
 	d.mu.Lock()
 	defer d.mu.Unlock()
 	d.loadCalls++
